@@ -91,8 +91,8 @@ class Ctx:
   # ---- recording
   def ob(self, rule, owner, node, ok, why, construct=None, chain=None):
     """Record one rule instance.  owner: FuncInfo | ClassInfo | ModuleInfo."""
-    mod = owner.module if isinstance(owner, (loader.FuncInfo, loader.ClassInfo)) else owner
-    fn = owner.qualname if isinstance(owner, (loader.FuncInfo, loader.ClassInfo)) else '<module>'
+    mod = owner.module if hasattr(owner, 'qualname') else owner
+    fn = owner.qualname if hasattr(owner, 'qualname') else '<module>'
     if construct is None:
       construct = norm_text(node) if isinstance(node, ast.AST) else str(node)
     if len(construct) > 300:
@@ -166,7 +166,14 @@ def run_rules(prop, tier='quick', overlay=None, repo=None):
   mod = load_rules(prop)
   ctx = Ctx(prop, tier, overlay=overlay, repo=repo)
   ctx.P.check_floors()
-  mod.run(ctx)
+  try:
+    mod.run(ctx)
+  except AnalysisError as e:
+    # an anchor that vanished *after* violations were already established does not mask them
+    if any(not o.ok for o in ctx.obligations):
+      ctx.note('analysis stopped early (%s); the violations found before that point are the verdict' % e)
+    else:
+      raise
   # floors guard against a vacuous *pass*; when violations were found they are the verdict
   if all(o.ok for o in ctx.obligations):
     for rule, n in getattr(mod, 'FLOORS', {}).items():
